@@ -1267,3 +1267,315 @@ Lemma lazy_recompute_iff_full : forall ttl st id bl b,
 Proof.
   exact (fun ttl st id bl b => conj (needs_refresh_iff ttl st) (lazy_recompute_iff ttl st id bl b)).
 Qed.
+
+(* ================================================================== families of decorated functions *)
+Lemma nth_error_upd_same {A} (l : list A) : forall f x a, nth_error l f = Some a -> nth_error (upd l f x) f = Some x.
+Proof. induction l as [|y l IH]; intros [|f] x a H; cbn in *; try discriminate; eauto. Qed.
+
+Lemma nth_error_upd_other {A} (l : list A) : forall f g x, f <> g -> nth_error (upd l f x) g = nth_error l g.
+Proof.
+  induction l as [|y l IH]; intros [|f] [|g] x H; cbn; auto; try congruence.
+Qed.
+
+Lemma nth_map_nth_error {A} (h : A -> Z) (l : list A) : forall f a, nth_error l f = Some a -> nth f (map h l) 0 = h a.
+Proof. induction l as [|y l IH]; intros [|f] a H; cbn in *; try discriminate; [congruence | eauto]. Qed.
+
+Lemma nth_error_repeat {A} (x : A) n : forall f, (f < n)%nat -> nth_error (repeat x n) f = Some x.
+Proof. induction n; intros [|f] H; cbn; try lia; auto. apply IHn. lia. Qed.
+
+Definition proj {O} (f : nat) (ops : list (nat * O)) : list O :=
+  map snd (filter (fun fo => (fst fo =? f)%nat) ops).
+
+Section FamilyProofs.
+  Variable K : Type.
+  Variable keqb : K -> K -> bool.
+  Variable kfs : nat -> call -> option K.
+  Variable valids : nat -> call -> bool.
+  Variable caps : nat -> nat.
+
+  Notation mstep := (mstep K keqb kfs valids caps).
+  Notation mrun := (mrun K keqb kfs valids caps).
+  Notation astep_of f := (astep K keqb (kfs f) (valids f) (caps f)).
+  Notation arun_of f := (arun K keqb (kfs f) (valids f) (caps f)).
+
+  (* an operation on function f leaves the cache machine of every other function untouched *)
+  Lemma mstep_other st f o g : g <> f -> nth_error (mfns (fst (mstep st (f, o)))) g = nth_error (mfns st) g.
+  Proof.
+    intros H. unfold Cache.mstep. cbn [fst snd]. destruct (nth_error (mfns st) f) as [a|]; auto.
+    destruct (astep_of f a o) as [a' r]. cbn. apply nth_error_upd_other. congruence.
+  Qed.
+
+  (* ... and on f's own machine it is exactly the single-function wrapper step *)
+  Lemma mstep_own st f o a : nth_error (mfns st) f = Some a ->
+    nth_error (mfns (fst (mstep st (f, o)))) f = Some (fst (astep_of f a o)) /\
+    snd (mstep st (f, o)) = snd (astep_of f a o).
+  Proof.
+    intros H. unfold Cache.mstep. cbn [fst snd]. rewrite H.
+    destruct (astep_of f a o) as [a' r]. cbn. split; auto. eapply nth_error_upd_same; eauto.
+  Qed.
+
+  (* what function f observes in an interleaved history: the results of its own operations and the size of
+     its own cache after each of them *)
+  Fixpoint obs_on (f : nat) (ops : list (nat * aop)) (rs : list (res * list Z)) : list (res * Z) :=
+    match ops, rs with
+    | fo :: ops', (r, sz) :: rs' =>
+      if (fst fo =? f)%nat then (r, nth f sz 0) :: obs_on f ops' rs' else obs_on f ops' rs'
+    | _, _ => []
+    end.
+
+  Lemma family_projection_gen ops : forall st f a, nth_error (mfns st) f = Some a ->
+    nth_error (mfns (fst (mrun st ops))) f = Some (fst (arun_of f a (proj f ops))) /\
+    obs_on f ops (snd (mrun st ops)) = snd (arun_of f a (proj f ops)).
+  Proof.
+    induction ops as [|[g o] ops IH]; intros st f a H.
+    - cbn. auto.
+    - cbn [Cache.mrun].
+      destruct (mstep st (g, o)) as [s1 r] eqn:E1.
+      destruct (mrun s1 ops) as [s2 rs] eqn:E2.
+      unfold proj. cbn [filter fst snd obs_on].
+      destruct (g =? f)%nat eqn:Egf.
+      + apply Nat.eqb_eq in Egf. subst g.
+        destruct (mstep_own st f o a H) as [Hc Hr]. rewrite E1 in Hc, Hr. cbn [fst snd] in Hc, Hr.
+        cbn [map snd Cache.arun].
+        destruct (astep_of f a o) as [a1 r1] eqn:Ea. cbn [fst snd] in Hc, Hr. subst r.
+        destruct (IH s1 f a1 Hc) as [IH1 IH2]. rewrite E2 in IH1, IH2. cbn [fst snd] in IH1, IH2.
+        fold (proj f ops).
+        destruct (arun_of f a1 (proj f ops)) as [a2 rs2] eqn:Er. cbn [fst snd] in *.
+        split; auto. f_equal; auto. f_equal.
+        unfold msizes. apply (nth_map_nth_error (fun a => Z.of_nat (length (store a)))). exact Hc.
+      + apply Nat.eqb_neq in Egf.
+        assert (Hc : nth_error (mfns s1) f = Some a).
+        { pose proof (mstep_other st g o f) as Ho. rewrite E1 in Ho. cbn in Ho. rewrite Ho; auto. }
+        destruct (IH s1 f a Hc) as [IH1 IH2]. rewrite E2 in IH1, IH2. cbn [fst snd] in IH1, IH2.
+        fold (proj f ops). cbn [fst snd]. auto.
+  Qed.
+
+  (* T7: in every interleaved history of a family of n decorated functions, every function observes exactly
+     what it observes when the operations of all other functions are deleted from the history *)
+  Lemma family_projection n ops f : (f < n)%nat ->
+    nth_error (mfns (fst (mrun (minit n) ops))) f = Some (fst (arun_of f ainit (proj f ops))) /\
+    obs_on f ops (snd (mrun (minit n) ops)) = snd (arun_of f ainit (proj f ops)).
+  Proof. intros H. apply family_projection_gen. cbn. apply nth_error_repeat; auto. Qed.
+
+  (* the body-run log: the entries tagged f are exactly the body runs of f's own cache machine, in order:
+     a miss of function f runs the body of function f *)
+  Definition log_of (f : nat) (l : list (Z * Z)) : list Z :=
+    map fst (filter (fun p => snd p =? Z.of_nat f) l).
+
+  Lemma log_of_app f a b : log_of f (a ++ b) = log_of f a ++ log_of f b.
+  Proof. unfold log_of. now rewrite filter_app, map_app. Qed.
+
+  Lemma log_of_tag_same f b a : log_of f (tag_runs f b a) = skipn (length b) a.
+  Proof.
+    unfold log_of, tag_runs. induction (skipn (length b) a) as [|x l IH]; cbn; auto.
+    rewrite Z.eqb_refl. cbn. now rewrite IH.
+  Qed.
+
+  Lemma log_of_tag_other f g b a : g <> f -> log_of f (tag_runs g b a) = [].
+  Proof.
+    intros H. unfold log_of, tag_runs. induction (skipn (length b) a) as [|x l IH]; cbn; auto.
+    destruct (Z.of_nat g =? Z.of_nat f) eqn:E; auto. apply Z.eqb_eq in E. lia.
+  Qed.
+
+  Lemma astep_runs_prefix kf valid cap (a : astate K) o :
+    runs (fst (astep K keqb kf valid cap a o)) = runs a ++ skipn (length (runs a)) (runs (fst (astep K keqb kf valid cap a o))).
+  Proof.
+    assert (P : forall (l d : list Z), l ++ d = l ++ skipn (length l) (l ++ d)).
+    { intros l d. rewrite skipn_app, Nat.sub_diag, skipn_all. reflexivity. }
+    assert (Q : forall (l : list Z), l = l ++ skipn (length l) l).
+    { intros l. rewrite skipn_all, app_nil_r. reflexivity. }
+    unfold astep. destruct o as [id c bl b|id].
+    - destruct (kf c) as [k|]; cbn; auto.
+      destruct (lru_getitem K keqb (store a) k (tick a)) as [[v l']|]; cbn; auto.
+      destruct (negb (valid c)); cbn; auto.
+      destruct bl; cbn; auto. destruct b; cbn; auto.
+    - destruct (infl_find K (infl a) id) as [[k [v|e]]|]; cbn; auto.
+  Qed.
+
+  Definition log_inv (st : mstate K) : Prop :=
+    forall f a, nth_error (mfns st) f = Some a -> log_of f (mlog st) = runs a.
+
+  Lemma log_inv_step st fo : log_inv st -> log_inv (fst (mstep st fo)).
+  Proof.
+    destruct fo as [g o]. intros I f a' H. unfold Cache.mstep in *. cbn [fst snd] in *.
+    destruct (nth_error (mfns st) g) as [a|] eqn:Eg; [|apply I; exact H].
+    pose proof (astep_runs_prefix (kfs g) (valids g) (caps g) a o) as Pre.
+    destruct (astep_of g a o) as [a1 r]. cbn [fst snd mfns mlog] in *.
+    rewrite log_of_app. destruct (Nat.eq_dec g f) as [->|N].
+    - rewrite (nth_error_upd_same _ _ _ _ Eg) in H. inversion H; subst a'.
+      rewrite log_of_tag_same, (I f a Eg). symmetry. exact Pre.
+    - rewrite nth_error_upd_other in H by exact N.
+      rewrite log_of_tag_other by exact N. rewrite app_nil_r. apply I; exact H.
+  Qed.
+
+  Lemma log_inv_run ops : forall st, log_inv st -> log_inv (fst (mrun st ops)).
+  Proof.
+    induction ops as [|o ops IH]; intros st I; cbn; auto.
+    pose proof (log_inv_step st o I) as I1.
+    destruct (mstep st o) as [s1 r]. specialize (IH s1 I1).
+    destruct (mrun s1 ops) as [s2 rs]. exact IH.
+  Qed.
+
+  Lemma family_body_runs_own n ops f : (f < n)%nat ->
+    log_of f (mlog (fst (mrun (minit n) ops))) = runs (fst (arun_of f ainit (proj f ops))).
+  Proof.
+    intros H. destruct (family_projection n ops f H) as [Hc _].
+    apply (log_inv_run ops (minit n)); auto.
+    intros g a Hg. cbn in *. destruct (Nat.lt_ge_cases g n) as [L|L].
+    - rewrite nth_error_repeat in Hg by exact L. inversion Hg. reflexivity.
+    - assert (nth_error (repeat (@ainit K) n) g = None) by (apply nth_error_None; rewrite repeat_length; lia).
+      congruence.
+  Qed.
+
+  (* T2 lifted to families: whatever the other functions do in between, every value function f is served from its
+     cache was computed by the body of an earlier call of f with the same key *)
+  Hypothesis keqb_spec : forall a b : K, keqb a b = true <-> a = b.
+  Lemma family_no_cross_talk n ops f : (f < n)%nat ->
+    hits_justified K (kfs f) (valids f) [] (proj f ops) (obs_on f ops (snd (mrun (minit n) ops))).
+  Proof.
+    intros H. destruct (family_projection n ops f H) as [_ Ho]. rewrite Ho.
+    apply no_cross_talk. exact keqb_spec.
+  Qed.
+End FamilyProofs.
+
+(* ---- acached_per_instance on several methods, alazy_constant on several functions *)
+Lemma mpstep_other K keqb kfs valids (st : mpstate K) f o g :
+  (forall i, o <> PDrop i) -> g <> f ->
+  nth_error (mpfns (fst (mpstep K keqb kfs valids st (f, o)))) g = nth_error (mpfns st) g.
+Proof.
+  intros Hd H. unfold mpstep. cbn [fst snd].
+  destruct o as [id i c bl b|id i|i]; try (exfalso; eapply Hd; reflexivity);
+    (destruct (nth_error (mpfns st) f) as [p|]; auto;
+     match goal with |- context [pstep ?a ?b ?c ?d ?e ?o] => destruct (pstep a b c d e o) as [p' r] end;
+     cbn; apply nth_error_upd_other; congruence).
+Qed.
+
+(* Drop of an idle instance removes it from the cache of every method; a busy one is kept everywhere *)
+Lemma mpstep_drop K keqb kfs valids (st : mpstate K) f i :
+  let st' := fst (mpstep K keqb kfs valids st (f, PDrop i)) in
+  (existsb (fun p => inst_busy K (pinfl p) i) (mpfns st) = true -> st' = st) /\
+  (existsb (fun p => inst_busy K (pinfl p) i) (mpfns st) = false ->
+   forall g p, nth_error (mpfns st) g = Some p ->
+     nth_error (mpfns st') g = Some (mkP (p_remove K (pstore p) i) (pinfl p) (pruns p))).
+Proof.
+  unfold mpstep. cbn [fst snd].
+  destruct (existsb (fun p => inst_busy K (pinfl p) i) (mpfns st)); cbn; split; intros; try discriminate; auto.
+  exact (map_nth_error (fun p => mkP (p_remove K (pstore p) i) (pinfl p) (pruns p)) g (mpfns st) H0).
+Qed.
+
+Lemma mlstep_other ttls (st : mlstate) f o g :
+  (forall dt, o <> LTick dt) -> g <> f ->
+  nth_error (mlfns (fst (mlstep ttls st (f, o)))) g = nth_error (mlfns st) g.
+Proof.
+  intros Hd H. unfold mlstep. cbn [fst snd].
+  destruct o as [id bl b|id| |dt]; try (exfalso; eapply Hd; reflexivity);
+    (destruct (nth_error (mlfns st) f) as [l|]; auto;
+     match goal with |- context [lstep ?a ?b ?o] => destruct (lstep a b o) as [l' r] end;
+     cbn; apply nth_error_upd_other; congruence).
+Qed.
+
+(* in particular dirty() of one lazy constant does not force a recomputation of another one *)
+Lemma mlstep_dirty_other ttls st f g l :
+  g <> f -> nth_error (mlfns st) g = Some l ->
+  nth_error (mlfns (fst (mlstep ttls st (f, LDirty)))) g = Some l.
+Proof. intros H Hl. rewrite mlstep_other; auto. intros dt; discriminate. Qed.
+
+(* ---- the decorator object only carries configuration: sharing one is unobservable *)
+Fixpoint own_decos {A} (k : nat) (fns : list (nat * A)) : list (nat * A) :=
+  match fns with [] => [] | (_, a) :: fns' => (k, a) :: own_decos (S k) fns' end.
+
+Lemma resolve_own {D A} (dflt : D) decos (fns : list (nat * A)) : forall pre,
+  resolve dflt (pre ++ map (fun fa => nth (fst fa) decos dflt) fns) (own_decos (length pre) fns) = resolve dflt decos fns.
+Proof.
+  unfold resolve. induction fns as [|[d a] fns IH]; intros pre; cbn; auto.
+  f_equal.
+  - rewrite app_nth2, Nat.sub_diag by lia. reflexivity.
+  - specialize (IH (pre ++ [nth d decos dflt])). rewrite app_length in IH. cbn in IH.
+    rewrite Nat.add_1_r, <- app_assoc in IH. exact IH.
+Qed.
+
+Lemma shared_decorator_unobservable src decos fns ops :
+  run_with src (CAlruM decos fns ops) =
+  run_with src (CAlruM (map (fun fa => nth (fst fa) decos adflt) fns) (own_decos 0 fns) ops).
+Proof.
+  unfold run_with. rewrite <- (resolve_own adflt decos fns []). reflexivity.
+Qed.
+
+(* `memo = alru_cache(maxsize=2)` on f and g, both `def (a, b=1)`: f(1), f(1, b=1), g(1), g(a=1) *)
+Definition ex_family : ccase :=
+  let s := mkSig [(0, None); (1, Some 1)] [] false in
+  CAlruM [(KmDefault, 2)] [(0%nat, s); (0%nat, s)]
+    [(0%nat, ACall 0 (mkCall [1] []) false (BRet 100)); (0%nat, ACall 1 (mkCall [1] [(1, 1)]) false (BRet 101));
+     (1%nat, ACall 2 (mkCall [1] []) false (BRet 102)); (1%nat, ACall 3 (mkCall [] [(0, 1)]) false (BRet 103))].
+Example ex_family_runs :
+  run_case ex_family = OAlruM [(RMiss 100, [1; 0]); (RHit 100, [1; 0]); (RMiss 102, [1; 1]); (RHit 102, [1; 1])]
+                              [(0, 0); (2, 1)].
+Proof. vm_compute. reflexivity. Qed.
+
+(* ---- lazy constants of a family: each observes its own operations plus the clock *)
+Definition lkeep (f : nat) (fo : nat * lop) : bool :=
+  match snd fo with LTick _ => true | _ => (fst fo =? f)%nat end.
+Definition lproj (f : nat) (ops : list (nat * lop)) : list lop := map snd (filter (lkeep f) ops).
+Fixpoint lobs_on (f : nat) (ops : list (nat * lop)) (rs : list res) : list res :=
+  match ops, rs with
+  | fo :: ops', r :: rs' => if lkeep f fo then r :: lobs_on f ops' rs' else lobs_on f ops' rs'
+  | _, _ => []
+  end.
+
+Lemma mlstep_own ttls st f o l : (forall dt, o <> LTick dt) -> nth_error (mlfns st) f = Some l ->
+  nth_error (mlfns (fst (mlstep ttls st (f, o)))) f = Some (fst (lstep (ttls f) l o)) /\
+  snd (mlstep ttls st (f, o)) = snd (lstep (ttls f) l o).
+Proof.
+  intros Hd H. unfold mlstep. cbn [fst snd].
+  destruct o as [id bl b|id| |dt]; try (exfalso; eapply Hd; reflexivity);
+    (rewrite H; match goal with |- context [lstep ?a ?b ?o] => destruct (lstep a b o) as [l' r] end;
+     cbn; split; auto; eapply nth_error_upd_same; eauto).
+Qed.
+
+Lemma mlstep_tick ttls st g dt f l : nth_error (mlfns st) f = Some l ->
+  nth_error (mlfns (fst (mlstep ttls st (g, LTick dt)))) f = Some (fst (lstep (ttls f) l (LTick dt))) /\
+  snd (mlstep ttls st (g, LTick dt)) = snd (lstep (ttls f) l (LTick dt)).
+Proof.
+  intros H. unfold mlstep. cbn [fst snd mlfns]. split; auto.
+  exact (map_nth_error (fun l => fst (lstep 0 l (LTick dt))) f (mlfns st) H).
+Qed.
+
+Lemma lazy_family_projection_gen ttls ops : forall st f l, nth_error (mlfns st) f = Some l ->
+  nth_error (mlfns (fst (mlrun ttls st ops))) f = Some (fst (lrun (ttls f) l (lproj f ops))) /\
+  lobs_on f ops (snd (mlrun ttls st ops)) = snd (lrun (ttls f) l (lproj f ops)).
+Proof.
+  induction ops as [|[g o] ops IH]; intros st f l H.
+  - cbn. auto.
+  - cbn [mlrun].
+    destruct (mlstep ttls st (g, o)) as [s1 r] eqn:E1.
+    destruct (mlrun ttls s1 ops) as [s2 rs] eqn:E2.
+    unfold lproj. cbn [filter lobs_on].
+    assert (Step : lkeep f (g, o) = true ->
+                   nth_error (mlfns s1) f = Some (fst (lstep (ttls f) l o)) /\ r = snd (lstep (ttls f) l o)).
+    { intros Hk. unfold lkeep in Hk. cbn [fst snd] in Hk.
+      assert (X : nth_error (mlfns (fst (mlstep ttls st (g, o)))) f = Some (fst (lstep (ttls f) l o)) /\
+                  snd (mlstep ttls st (g, o)) = snd (lstep (ttls f) l o)).
+      { destruct o as [id bl b|id| |dt];
+          try (apply Nat.eqb_eq in Hk; subst g; apply mlstep_own; [intros dt'; discriminate | exact H]).
+        apply mlstep_tick; exact H. }
+      rewrite E1 in X. exact X. }
+    destruct (lkeep f (g, o)) eqn:Ek.
+    + destruct (Step eq_refl) as [Hc Hr]. subst r.
+      cbn [map snd lrun].
+      destruct (lstep (ttls f) l o) as [l1 r1] eqn:El. cbn [fst snd] in *.
+      destruct (IH s1 f l1 Hc) as [IH1 IH2]. rewrite E2 in IH1, IH2. cbn [fst snd] in IH1, IH2.
+      fold (lproj f ops). destruct (lrun (ttls f) l1 (lproj f ops)) as [l2 rs2]. cbn [fst snd] in *.
+      split; auto. f_equal; auto.
+    + assert (Hc : nth_error (mlfns s1) f = Some l).
+      { unfold lkeep in Ek. cbn [fst snd] in Ek.
+        pose proof (mlstep_other ttls st g o f) as Ho. rewrite E1 in Ho. cbn [fst] in Ho.
+        rewrite Ho; auto.
+        - intros dt ->. discriminate.
+        - intros ->. destruct o; try discriminate; rewrite Nat.eqb_refl in Ek; discriminate. }
+      destruct (IH s1 f l Hc) as [IH1 IH2]. rewrite E2 in IH1, IH2. cbn [fst snd] in IH1, IH2.
+      fold (lproj f ops). cbn [fst snd]. auto.
+Qed.
+
+Lemma lazy_family_projection ttls n now0 ops f : (f < n)%nat ->
+  lobs_on f ops (snd (mlrun ttls (mlinit n now0) ops)) = snd (lrun (ttls f) (linit now0) (lproj f ops)).
+Proof. intros H. apply lazy_family_projection_gen. cbn. apply nth_error_repeat; auto. Qed.
